@@ -54,8 +54,27 @@ def make_chipset(sx, driver):
     return cs, link
 
 
-def make_device(sx, driver):
-    """-> (device, link) with the device initialised and the link idle"""
+_CACHE = {}
+
+
+def make_device(sx, driver, reuse=True):
+    """-> (device, link) with the device initialised and the link idle.
+
+    The initialisation dialogue is concrete and deterministic and the drivers
+    keep no state that an exchange modifies (chipset, logger, name strings,
+    PN533 EEPROM copy), so with reuse=True the objects built by the first call
+    in this process are handed out again with a reset HostLink; every process
+    (pool worker, native replay) still runs the real __init__ once."""
+    if reuse and driver in _CACHE:
+        dev, link = _CACHE[driver]
+        link.sx = sx
+        link.written = []
+        link.raw = None
+        link.closed = False
+        link.begin(chip=init_chip(MODEL[driver]))
+        if dev.chipset is None or dev.chipset.transport is not link:
+            raise AssertionError("cached %s device was closed or re-wired" % driver)
+        return dev, link
     cs, link = make_chipset(sx, driver)
     if driver == 'pn531':
         dev = nfc.clf.pn531.Device(cs, logger=nfc.clf.pn531.log)
@@ -78,6 +97,8 @@ def make_device(sx, driver):
         raise AssertionError("HostLink: initialisation dialogue of %s left "
                              "the link in an unexpected state" % driver)
     link.begin()
+    if reuse:
+        _CACHE[driver] = (dev, link)
     return dev, link
 
 
